@@ -11,6 +11,10 @@ from cv.core import VERIF, Check  # noqa: E402
 from cayleypy.algo import MeetInTheMiddle  # noqa: E402
 
 THEOREMS = [
+    "Cv.C05a.mitmFindPathTo_spec",
+    "Cv.C05a.mitmFindPathTo_core",
+    "Cv.C05a.mitmFindPathFrom_spec",
+    "Cv.C05a.mitmFindPathFrom_core",
     "Cv.C05b.between_spec",
     "Cv.C05b.between_spec_noflag",
 ]
@@ -194,7 +198,7 @@ def main():
         body = json.load(open(os.path.join(VERIF, ck.replay) if not os.path.isabs(ck.replay) else ck.replay))
         run_case(ck, body["case"])
         ck.finish(rule="replay of one recorded case")
-    ck.lean_obligations(['CvProps.C05', 'CvProps.C05b'], THEOREMS)
+    ck.lean_obligations(['CvProps.C05a', 'CvProps.C05b'], THEOREMS)
     for case in json.load(open(os.path.join(VERIF, "harness", "corpus", "C05.json"))):
         run_case(ck, case)
         ck.count("corpus")
